@@ -32,6 +32,7 @@ PInit(b) ==
     started |-> FALSE,       \* the clock has been started since the last stop
     ticking |-> FALSE, speed |-> 0,
     pendTick |-> "none", pendReset |-> FALSE, pendSpeed |-> -1, pendDelay |-> 0,
+    early |-> FALSE,         \* which reading of a delayed change's due time this monitor follows (see Walk)
     del |-> <<>>,            \* a delayed speed change under way: <<[v, rem]>>, rem = frames of audio time still to pass
     held |-> {0},            \* values the clock has had at chunk boundaries since the last stop (what a read may show)
     lastRead |-> -1,
@@ -50,6 +51,13 @@ PInit(b) ==
 RECURSIVE Chunks(_, _)
 Chunks(n, b) == IF n = 0 THEN <<>> ELSE IF n <= b THEN <<n>> ELSE <<b>> \o Chunks(n - b, b)
 
+\* the internal chunks of a callback: as recorded (`chs`: how a callback is cut up is the renderer's business, as long as no
+\* chunk is longer than the internal buffer and together they are the callback), or - in the model - full buffers and a rest
+RECURSIVE SumSeq(_)
+SumSeq(s) == IF s = <<>> THEN 0 ELSE Head(s) + SumSeq(Tail(s))
+ChunksOf(m, e) == IF "chs" \in DOMAIN e THEN e.chs ELSE Chunks(e.n, m.b)
+ChunksOK(m, e) == LET c == ChunksOf(m, e) IN SumSeq(c) = e.n /\ \A j \in 1..Len(c) : c[j] >= 1 /\ c[j] <= m.b
+
 \* commands take effect at the start of the callback: speed, then ticking, then reset
 AfterCmds(m) ==
   LET tk == IF m.pendTick = "on" THEN TRUE ELSE IF m.pendTick = "off" THEN FALSE ELSE m.ticking
@@ -64,19 +72,21 @@ AfterCmds(m) ==
 \* walk through the chunks: returns the sequence of records [start, end, t0, t1, ticking] per chunk
 \* (an own-time speed change takes effect from the chunk after the one in which the clock reaches w at the latest)
 \* (a delayed change takes effect from the first chunk that begins once its delay has passed, ticking or not)
-RECURSIVE Walk(_, _, _, _, _, _, _)
-Walk(chs, f, t, sp0, tk, own, del) ==
+RECURSIVE Walk(_, _, _, _, _, _, _, _)
+\* (early: a delayed change takes effect in the chunk during which its delay runs out - the other reading of "when it is due,
+\*  to within one update"; an implementation is one or the other throughout, see T_C05)
+Walk(chs, f, t, sp0, tk, own, del, early) ==
   IF chs = <<>> THEN <<>>
   ELSE LET len == Head(chs)
-           sp == IF del # <<>> /\ del[1].rem = 0 THEN del[1].v ELSE sp0
-           del1 == IF del = <<>> \/ del[1].rem = 0 THEN <<>>
+           sp == IF del # <<>> /\ (del[1].rem = 0 \/ (early /\ del[1].rem <= len)) THEN del[1].v ELSE sp0
+           del1 == IF del = <<>> \/ del[1].rem = 0 \/ (early /\ del[1].rem <= len) THEN <<>>
                    ELSE <<[del[1] EXCEPT !.rem = IF @ > len THEN @ - len ELSE 0]>>
            t1 == IF tk THEN t + sp * len ELSE t
            due == {j \in 1..Len(own) : tk /\ own[j].w <= t1}
            sp1 == IF due = {} THEN sp ELSE own[CHOOSE j \in due : \A k \in due : k <= j].v
            own1 == SelectSeq(own, LAMBDA o : ~(tk /\ o.w <= t1))
        IN <<[f0 |-> f, len |-> len, t0 |-> t, t1 |-> t1, tk |-> tk, sp |-> sp, spNext |-> sp1, delNext |-> del1]>>
-          \o Walk(Tail(chs), f + len, t1, sp1, tk, own1, del1)
+          \o Walk(Tail(chs), f + len, t1, sp1, tk, own1, del1, early)
 
 Boundaries(w) == {w[j].t0 : j \in 1..Len(w)} \cup {w[j].t1 : j \in 1..Len(w)}
 
@@ -93,10 +103,11 @@ FireWindow(w, x) ==
 Check(m, e) ==
   CASE e.a = "cb" ->
          LET m1 == AfterCmds(m)
-             w == Walk(Chunks(e.n, m.b), 0, m1.ref, m1.speed, m1.ticking, m.own, m1.del)
+             w == Walk(ChunksOf(m, e), 0, m1.ref, m1.speed, m1.ticking, m.own, m1.del, m.early)
              tEnd == IF w = <<>> THEN m1.ref ELSE w[Len(w)].t1
          IN
          IF e.panicked THEN "no_panic"
+         ELSE IF ~ChunksOK(m, e) THEN "chunks_cover_the_callback_and_fit_the_internal_buffer"
          ELSE IF m.lost \/ m.fuzzy > 0 \/ m.stopOpen THEN ""
          ELSE IF m.settled /\ m.pendTick = "none" /\ (e.t > 0 \/ e.ticking = 1) THEN "stopping_resets_to_zero"
          ELSE IF e.t # -1 /\ e.t \notin Boundaries(w) \cup {m1.ref} THEN      \* (-1: the handle could not be read just then)
@@ -147,7 +158,7 @@ Upd(m, e) ==
     [] e.a = "sched" -> [m EXCEPT !.sched = Append(@, [id |-> e.id, w |-> e.w, fired |-> FALSE])]
     [] e.a = "cb" ->
          LET m1 == AfterCmds(m)
-             w == Walk(Chunks(e.n, m.b), 0, m1.ref, m1.speed, m1.ticking, m.own, m1.del)
+             w == Walk(ChunksOf(m, e), 0, m1.ref, m1.speed, m1.ticking, m.own, m1.del, m.early)
              last == w[Len(w)]
          IN IF m.stopOpen THEN [m EXCEPT !.inCb = FALSE, !.frames = @ + e.n]
             ELSE IF m.fuzzy > 0 \/ m.lost THEN
